@@ -6,7 +6,7 @@ from core import BaseProp, Verdict
 from proto import T
 
 RULE = ('random trees with duplicates at every depth (repeated atoms, repeated compound operands written identically, written '
-        'in another order, and regrouped siblings that are not repeats: the same licenses and operators in the same order under other parentheses; WITH pairs) and lists of expressions to combine; Spec: dedup() of the real code equals the reference '
+        'in another order, and regrouped siblings that are not repeats: the same licenses and operators in the same order under other parentheses; WITH pairs; one case in six with operands that render alike without being equal - the same key with and without the exception flag - where the rendering decides and the truth-table clause is not asserted) and lists of expressions to combine; Spec: dedup() of the real code equals the reference '
         'deduplication dedupRef (stated in Lean: at every node, leaves up, drop each operand whose rendering repeats an earlier '
         'sibling, replace a node left with one operand by it); operand order kept; truth table unchanged; applying it twice changes '
         'nothing; combine_expressions accepts AND/OR in any letter case, refuses anything else with TypeError, keeps duplicates '
@@ -61,14 +61,16 @@ def with_dups(rng, t):
 class Prop(BaseProp):
     def case_random(self, rng):
         keys = rng.sample(['a', 'b', 'c', 'mit', 'gpl 2.0', 'x'], rng.randint(2, 4))
-        t = with_dups(rng, gen.gen_tree(rng, keys, depth=rng.randint(1, 3), maxar=3, with_p=0.2, flags=False))
+        # one case in six: the same key with and without the exception flag in one tree (objects of two Licensings):
+        # operands that render alike without being equal; the rule of the property goes by the rendering
+        collide = rng.random() < 0.17
+        t = with_dups(rng, gen.gen_tree(rng, keys[:2] if collide else keys, depth=rng.randint(1, 3), maxar=3, with_p=0.2, flags=collide))
         return {'tree': t, 'rel': rng.choice(['AND', 'and', 'Or', 'OR', 'xor', '', None, 'aNd']), 'unique': rng.random() < 0.7}
 
     def eval_case(self, drv, case):
         tree = case['tree']
         known = case.get('known')
-        if not gen.render_distinct(tree) and not known:
-            return Verdict('skip', case)
+        collide = not gen.render_distinct(tree)
         lic = impl.le.Licensing()
         import random as _random
         e = impl.build_tree(tree, lic.AND, lic.OR, rng=_random.Random(len(repr(tree))) if len(repr(tree)) % 3 == 0 else None)
@@ -84,7 +86,7 @@ class Prop(BaseProp):
             return Verdict('spec', case, 'dedup mutated its argument', impl=impl.tree_c(e))
         if dt != ref:
             return Verdict('spec', case, 'dedup differs from the reference deduplication', impl=dt, model=ref)
-        if t0 != t1:
+        if t0 != t1 and not collide:
             return Verdict('spec', case, 'truth table changed', impl=dt, model=ref)
         if impl.tree_c(lic.dedup(d)) != dt:
             return Verdict('spec', case, 'dedup is not idempotent', impl=[dt, impl.tree_c(lic.dedup(d))])
@@ -137,7 +139,9 @@ class Prop(BaseProp):
                         mixed.append(tx)
                     else:
                         mixed.append(o)
-                if all(impl.lower_is_charwise(m) for m in mixed if isinstance(m, str)):
+                # (a string carries no exception flag: only for trees without flags)
+                noflags = all(not (a[2] if a[0] == 'sym' else (a[2] or a[4])) for a in gen.atoms_of(tree))
+                if noflags and all(impl.lower_is_charwise(m) for m in mixed if isinstance(m, str)):
                     try:
                         c2 = impl.tree_c(impl.le.combine_expressions(mixed, relation=rel, unique=unique, licensing=lic))
                     except BaseException as ex:  # noqa
@@ -146,7 +150,7 @@ class Prop(BaseProp):
                     if c2 != want:
                         return Verdict('spec', dict(case, inputs=[m if isinstance(m, str) else str(m) for m in mixed]),
                                        'combine_expressions result on string inputs', impl=c2, model=want)
-        return Verdict('ok', case, impl=dt, nontrivial=dt != before, tags=['changed=%s' % (dt != before)])
+        return Verdict('ok', case, impl=dt, nontrivial=dt != before, tags=['changed=%s' % (dt != before), 'render-colliding=%s' % collide])
 
     def run(self, drv, rng, tier, index, nworkers, scale):
         n = self.budget(tier, 5000, 80000, nworkers, scale)
